@@ -94,6 +94,34 @@ def replay(rec, case):
         finally:
             zyg.close()
         return
+    if i.get("burst_lookups"):
+        import random
+        from ..lib import BIC, SchwiftyException
+        A = i["calls"][0]
+        keys = list(state()["keys"])
+        skip = (A["cc"], A["code"])
+
+        def burst_lookups(seed_):
+            r = random.Random(seed_)
+            ks = [k for k in keys if k != skip]
+            r.shuffle(ks)
+            bad = 0
+            for cc_, code_ in ks:
+                try:
+                    BIC.from_bank_code(cc_, code_)
+                except SchwiftyException:
+                    bad += 1
+            return bad
+        want = make_call(A)()
+        for k in range(3):
+            make_call(A)()
+            got, _ = sched.run_concurrently([make_call(A), lambda: burst_lookups(i["burst_seed"])], [], repo_root(),
+                                            loc_points=[tuple(p) for p in i["loc_points"]], untraced={1})
+            if tuple(got[0]) != ("ok", want) or tuple(got[1]) != ("ok", 0):
+                rec.fail("interference|replay|burst-of-lookups", "concurrent_equals_alone", i, [["ok", want], ["ok", 0]],
+                         [list(x) for x in got])
+                return
+        return
     if i.get("burst"):
         import random
         from ..lib import IBAN, SchwiftyException
@@ -181,6 +209,27 @@ def directed_accounts(rng, m, n=2):
             elif r == want or r is None:
                 out.append(a)
                 break
+    # for the edge remainders also an account that the method ACCEPTS there (the exception rules of some methods - e.g. the two
+    # last digits being equal - make such accounts valid): a borrowed remainder then flips a verdict from accept to reject
+    if m in ode.METHODS:
+        for want in (1, 0):
+            for _ in range(600):
+                a = f"{rng.randrange(10 ** 10):010d}"
+                if ode.remainder_info(m, a) != want:
+                    continue
+                hit = None
+                for d9 in "0123456789":
+                    for d10 in "0123456789":
+                        cand = a[:8] + d9 + d10
+                        if ode.remainder_info(m, cand) == want and ode.ref(m, cand) is True:
+                            hit = cand
+                            break
+                    if hit:
+                        break
+                if hit:
+                    if hit not in out:
+                        out.append(hit)
+                    break
     return out
 
 
@@ -616,6 +665,45 @@ def shard_aged(arg):
                          {"calls": [A], "loc_points": [[0, L, 1, 1]], "schedule": [], "origin": "burst-while-paused", "burst": n_burst,
                           "burst_seed": bseed}, [list(want_a), ["ok", 0]], [list(x) for x in got])
                 break
+    # the same with lookups: A looks up a key it has looked up before; while it is paused, the other thread looks up every
+    # other listed key once (tens of thousands of distinct keys: whatever bounded table lookups keep overflows at least once)
+    st = state()
+    keys = list(st["keys"])
+
+    def burst_lookups(seed_, skip):
+        from ..lib import BIC, SchwiftyException
+        r = random.Random(seed_)
+        ks = [k for k in keys if k != skip]
+        r.shuffle(ks)
+        bad = 0
+        for cc_, code_ in ks:
+            try:
+                BIC.from_bank_code(cc_, code_)
+            except SchwiftyException:
+                bad += 1
+        return bad
+
+    for _ in range(1 if tier == "quick" else 4):
+        cc_a, code_a = rng.choice(keys)
+        A = {"op": "from_bank_code", "cc": cc_a, "code": code_a}
+        make_call(A)()
+        want_a, locs = sched.trace_locations(make_call(A), repo_root())
+        for L in locs:
+            if out_of_budget(rec):
+                break
+            make_call(A)()          # A's key is known again (the previous burst may have pushed it out)
+            bseed = rng.randrange(2 ** 32)
+            got, info = sched.run_concurrently([make_call(A), lambda: burst_lookups(bseed, (cc_a, code_a))], [], repo_root(),
+                                               loc_points=[(0, L, 1, 1)], untraced={1})
+            rec.evals += 1
+            rec.classes["burst-of-lookups-while-paused"] += 1
+            if info["switches"]:
+                rec.nt.add(hash((json.dumps(A, sort_keys=True), L, "burst-lookups")))
+            if tuple(got[0]) != tuple(want_a) or tuple(got[1]) != ("ok", 0):
+                rec.fail(f"interference|{A['op']}|with:burst-of-lookups", "concurrent_equals_alone",
+                         {"calls": [A], "loc_points": [[0, L, 1, 1]], "schedule": [], "origin": "burst-of-lookups", "burst_lookups": len(keys) - 1,
+                          "burst_seed": bseed}, [list(want_a), ["ok", 0]], [list(x) for x in got])
+                break
     rec.sample("burst-while-paused", {"burst": f"{n_burst} validations of valid IBANs never seen in this process, untraced",
                                       "A": "a call repeated from before, paused at each of its locations in turn"})
     return rec
@@ -897,5 +985,5 @@ def run(ctx):
     ctx.pmap(shard_national, [(cc, ctx.seed, ctx.tier) for cc in NATIONAL])
     ctx.pmap(shard_mixed, [(i, ctx.seed, ctx.tier) for i in range(16 if ctx.quick else 32)])
     ctx.hyp_parallel(strategy, hyp_body, ctx.pick(640, 12000), name="C14-hyp")
-    ctx.require_classes("aged-process-schedules", "two-point-schedules", "two-point-size-extreme", "failing-prelude", "burst-while-paused-schedules", "loc-warm-schedules", "loc-cold-schedules", "loc-cold-pair", "mixed", "hyp", "random-2-threads", "random-3-threads", "random-national",
+    ctx.require_classes("burst-of-lookups-while-paused", "aged-process-schedules", "two-point-schedules", "two-point-size-extreme", "failing-prelude", "burst-while-paused-schedules", "loc-warm-schedules", "loc-cold-schedules", "loc-cold-pair", "mixed", "hyp", "random-2-threads", "random-3-threads", "random-national",
                         *[f"enum-{m}" for m in st["impl"]], *[f"enum-national-{cc}" for cc in NATIONAL])
